@@ -353,7 +353,8 @@ func checkReferences(o *Observed) []Finding {
 			if r.Res.OK {
 				continue // already reported as committed twice
 			}
-			if r.Res.Class != "conflict" {
+			// an injected store failure on the lookup is an answer of its own: the request is refused and changes nothing
+			if r.Res.Class != "conflict" && !strings.Contains(r.Res.Err, "injected read failure") {
 				out = append(out, Finding{"late-duplicate-not-a-conflict:" + r.Res.Class, fmt.Sprintf("request %s reuses reference %q after it was committed and got %q", r.Op.Tag, r.Op.Reference, r.Res.Err)})
 			}
 		}
@@ -563,7 +564,10 @@ func checkPostingMode(o *Observed) []Finding {
 				out = append(out, Finding{"reference-differs:" + where, fmt.Sprintf("requested %q, %s %q", r.Op.Reference, where, t.Reference)})
 			}
 			if r.Op.Timestamp != "" {
-				want, _ := ledger.ParseTime(r.Op.Timestamp)
+				// the instant the client wrote, at the ledger's microsecond precision - computed with the standard library,
+				// not with the ledger's own parser
+				want0, _ := time.Parse(time.RFC3339Nano, r.Op.Timestamp)
+				want := struct{ time.Time }{want0.Round(time.Microsecond)}
 				got, err := time.Parse(time.RFC3339Nano, t.Timestamp)
 				if err != nil || !got.Equal(want.Time) {
 					out = append(out, Finding{"timestamp-differs:" + where, fmt.Sprintf("requested %s (%s), %s %s", r.Op.Timestamp, want.Format(time.RFC3339Nano), where, t.Timestamp)})
@@ -661,6 +665,18 @@ func checkEvents(o *Observed) []Finding {
 			published[i] = true
 			if d := sameTx(txJ(&p.Revert), logTx(o.Logs[i])); d != "" {
 				out = append(out, Finding{"event-content-differs:" + m.Type, d})
+			}
+			// ... and the transaction that was reverted is the one the log holds under that id
+			if j := find(func(j int, l *ledger.ChainedLog) bool {
+				t := logTx(l)
+				return t != nil && t.ID.Cmp(p.Reverted.ID) == 0
+			}, m.LogsAtPublish); j >= 0 {
+				// (its metadata may have been changed since by metadata writes: what the entry fixed is compared)
+				ev, lg := txJ(&p.Reverted), txJ(logTx(o.Logs[j]))
+				ev.Metadata, lg.Metadata = nil, nil
+				if !reflect.DeepEqual(ev, lg) {
+					out = append(out, Finding{"event-content-differs:" + m.Type + ":reverted-transaction", fmt.Sprintf("event %+v, log entry %+v", *ev, *lg)})
+				}
 			}
 		case "SAVED_METADATA":
 			var p struct {
